@@ -19,16 +19,17 @@ Definition rd (st : state) (code cnt lit : Z) : option Z :=
     if cnt <=? 1 then Some (sgpr st code)
     else if code =? 101 then None           (* slice out of range *)
     else Some (sgpr st code + W32 * sgpr st (code + 1))
-  else if code =? 106 then Some (if cnt =? 1 then u32 (vcc st) else vcc st)
-  else if code =? 107 then Some (if cnt =? 1 then hi32 (vcc st) else vcc st)
+  else if code =? 106 then Some (if cnt <=? 1 then u32 (vcc st) else vcc st)
+  else if code =? 107 then Some (if cnt <=? 1 then hi32 (vcc st) else vcc st)
   else if code =? 124 then Some (m0 st)
   else if code =? 126 then Some (if cnt =? 2 then exec st else u32 (exec st))
+  else if code =? 127 then (if cnt <=? 1 then Some (hi32 (exec st)) else None)
   else if (128 <=? code) && (code <=? 192) then Some (code - 128)
   else if (193 <=? code) && (code <=? 208) then Some (W64 - (code - 192))  (* uint64(int64(-k)) *)
   else if (240 <=? code) && (code <=? 248) then Some (inline_f32 code)
   else if code =? 253 then Some (scc st)
   else if code =? 255 then Some lit
-  else None.                                 (* exec_hi, vccz, execz, ...: "Register type not supported" *)
+  else None.                                 (* vccz, execz, ...: "Register type not supported" *)
 
 (** per-lane read for vector formats: VGPRs are read at the lane, everything
     else is lane independent *)
@@ -48,11 +49,14 @@ Definition wr (st : state) (code cnt v : Z) : option state :=
     if cnt =? 2 then Some (st <| vcc := u64 v |>)
     else Some (st <| vcc := hi32 (vcc st) * W32 + u32 v |>)
   else if code =? 107 then
-    if cnt =? 0 then Some (st <| vcc := u32 (vcc st) + u32 v * W32 |>)
-    else if cnt =? 1 then Some (st <| vcc := Z.lor (hi32 (vcc st) * W32) (u32 v * W32) |>)
+    if cnt <=? 1 then Some (st <| vcc := u32 (vcc st) + u32 v * W32 |>)
     else Some (st <| vcc := u64 v |>)
   else if code =? 124 then Some (st <| m0 := u32 v |>)
-  else if code =? 126 then (if cnt =? 2 then Some (st <| exec := u64 v |>) else None)
+  else if code =? 126 then
+    if cnt =? 2 then Some (st <| exec := u64 v |>)
+    else Some (st <| exec := hi32 (exec st) * W32 + u32 v |>)
+  else if code =? 127 then
+    if cnt <=? 1 then Some (st <| exec := u32 (exec st) + u32 v * W32 |>) else None
   else None.
 
 Definition wrv (st : state) (code v lane : Z) : option state :=
@@ -76,40 +80,49 @@ Definition brev_impl (x : Z) : Z :=
      Z.lor acc (Z.shiftl (Z.shiftr (Z.land x (Z.shiftl 1 (31 - i))) (31 - i)) i))
     (map Z.of_nat (seq 0 32)) 0.
 
+(** S_BFE_I32 as both ALUs compute it after the repair: int32 arithmetic,
+    offset = S1[4:0], width = S1[22:16] *)
+Definition bfe_i32_impl (a b : Z) : Z :=
+  let x := s32 a in let s1 := u32 b in
+  let off := Z.land s1 31 in let w := Z.land (Z.shiftr s1 16) 127 in
+  if w =? 0 then 0
+  else if off + w >=? 32 then Z.shiftr x off
+  else Z.shiftr (s32 (Z.shiftl x (32 - off - w))) (32 - w).
+
 (** * GCN3 ALU (amd/emu/alusop2.go, alusop1.go, alusopc.go, alusopk.go, alu.go) *)
 Definition g_sop2 (op a b : Z) (st : state) : option sres :=
   let c := scc st in
   match op with
-  | 0 | 2 => let s0 := u32 a in let s1 := u32 b in
+  | 0 => let s0 := u32 a in let s1 := u32 b in
       Some (dres st (u32 (s0 + s1)) (if s0 >? W32 - 1 - s1 then 1 else 0))
-  | 1 => Some (dres st (u64 (a - b)) (if a <? b then 1 else c))
+  | 1 => let s0 := u32 a in let s1 := u32 b in
+      Some (dres st (u32 (s0 - s1)) (b2z (s1 >? s0)))
+  | 2 => let s := s32 a + s32 b in
+      Some (dres st (u32 s) (b2z ((s >? 2147483647) || (s <? -2147483648))))
   | 3 => let x := s32 a in let y := s32 b in let d := s32 (x - y) in
       Some (dres st (u32 d) (if ((y >? 0) && (d >? x)) || ((y <? 0) && (d <? x)) then 1 else 0))
-  | 4 => let s0 := u32 a in let s1 := u32 b in
-      Some (dres st (u32 (s0 + s1 + c)) (if s0 <? u32 (W32 - 1 - c - s1) then 0 else 1))
-  | 5 => Some (dres st (u64 (a - b - c)) (if a <? u64 (b + c) then 1 else 0))
-  | 6 => Some (if s32 a <? s32 b then dres st a 1 else dres st b c)
-  | 7 => Some (if a <? b then dres st a 1 else dres st b c)
-  | 8 => Some (if s32 a >? s32 b then dres st a 1 else dres st b c)
-  | 9 => Some (if a >? b then dres st a 1 else dres st b c)
+  | 4 => let s := u32 a + u32 b + c in Some (dres st (u32 s) (b2z (s >? W32 - 1)))
+  | 5 => let s0 := u32 a in let s1 := u32 b in
+      Some (dres st (u64 (s0 - s1 - c)) (if s0 <? u64 (s1 + c) then 1 else 0))
+  | 6 => Some (if s32 a <? s32 b then dres st a 1 else dres st b 0)
+  | 7 => Some (if u32 a <? u32 b then dres st (u32 a) 1 else dres st (u32 b) 0)
+  | 8 => Some (if s32 a >? s32 b then dres st a 1 else dres st b 0)
+  | 9 => Some (if u32 a >? u32 b then dres st (u32 a) 1 else dres st (u32 b) 0)
   | 10 => Some (dres st (if c =? 1 then a else b) c)
-  | 12 | 13 => let d := Z.land a b in Some (dres st d (nz d))
+  | 12 => let d := Z.land (u32 a) (u32 b) in Some (dres st d (nz d))
+  | 13 => let d := Z.land a b in Some (dres st d (nz d))
   | 15 => let d := Z.lor a b in Some (dres st d (nz d))
-  | 16 | 17 => let d := Z.lxor a b in Some (dres st d (nz d))
+  | 16 => let d := Z.lxor (u32 a) (u32 b) in Some (dres st d (nz d))
+  | 17 => let d := Z.lxor a b in Some (dres st d (nz d))
   | 19 => let d := Z.land a (not64 b) in Some (dres st d (nz d))
   | 28 => let d := u32 (Z.shiftl (u32 a) (Z.land (b mod 256) 31)) in Some (dres st d (nz d))
   | 29 => let d := u64 (Z.shiftl a (Z.land (b mod 256) 63)) in Some (dres st d (nz d))
-  | 30 => let d := Z.shiftr a (Z.land b 31) in Some (dres st d (nz d))
+  | 30 => let d := Z.shiftr (u32 a) (Z.land (u32 b) 31) in Some (dres st d (nz d))
   | 31 => let d := Z.shiftr a (Z.land b 63) in Some (dres st d (nz d))
-  | 32 => let d := Z.shiftr (s32 a) (b mod 256) in Some (dres st (u32 d) (nz d))
+  | 32 => let d := Z.shiftr (s32 a) (Z.land (b mod 256) 31) in Some (dres st (u32 d) (nz d))
   | 34 => Some (dres st (u64 (Z.shiftl (Z.shiftl 1 (Z.land a 31) - 1) (Z.land b 31))) c)
-  | 36 => let x := s32 a in let y := s32 b in let d := s32 (x * y) in
-      Some (dres st (u32 d) (if negb (x =? 0) && negb (s32 (Z.quot d x) =? y) then 1 else c))
-  | 38 => let x := s32 a in let s1 := u32 b in
-      let off := Z.land s1 31 in let w := Z.land (Z.shiftr s1 16) 127 in
-      let m := s32 (s32 (if w <? 32 then Z.shiftl 1 w else 0) - 1) in
-      let d := Z.land (Z.shiftr x off) m in
-      Some (dres st (u32 d) (nz d))
+  | 36 => Some (dres st (u32 (s32 (s32 a * s32 b))) c)
+  | 38 => let d := bfe_i32_impl a b in Some (dres st (u32 d) (nz d))
   | _ => None
   end.
 
@@ -124,9 +137,9 @@ Definition g_sop1 (op a : Z) (st : state) : option sres :=
   let c := scc st in
   match op with
   | 0 | 1 => Some (dres st a c)
-  | 4 => let d := not64 a in Some (dres st d (if d =? 0 then c else 1))
+  | 4 => let d := not32 (u32 a) in Some (dres st d (nz d))
   | 8 => Some (dres st (brev_impl (u32 a)) c)
-  | 28 => Some (dres st (u64 (pc st + 4)) c)
+  | 28 => Some (dres st (pc st) c)
   | 32 | 33 | 34 | 35 | 36 | 37 | 38 | 39 =>
       let e := exec st in let e' := saveexec op a e in
       Some (mkS (Some e) (nz e') (Some e') (pc st))
@@ -155,8 +168,8 @@ Definition g_sopk (op k : Z) (d : option Z) (st : state) : option sres :=
   match op with
   | 0 => Some (dres st (u64 (s16 k)) c)
   | 1 => Some (if c =? 1 then dres st (u64 (s16 k)) c else keep st)
-  | 2 => match d with Some d => Some (cres st (b2z (s16 (u16 d) =? s16 k))) | None => None end
-  | 3 => match d with Some d => Some (cres st (b2z (negb (s16 (u16 d) =? s16 k)))) | None => None end
+  | 2 => match d with Some d => Some (cres st (b2z (s32 d =? s16 k))) | None => None end
+  | 3 => match d with Some d => Some (cres st (b2z (negb (s32 d =? s16 k)))) | None => None end
   | 15 => match d with Some d => Some (dres st (u64 (s32 (s16 k * s32 d))) c) | None => None end
   | _ => None
   end.
@@ -193,11 +206,12 @@ Definition c_sop2 (op a b : Z) (st : state) : option sres :=
   | 4 => let s := s0 + s1 + c in Some (dres st (u32 s) (b2z (s >? W32 - 1)))
   | 5 => Some (dres st (u32 (s0 - s1 - c)) (b2z (s1 + c >? s0)))
   | 6 => Some (if s32 a <? s32 b then dres st s0 1 else dres st s1 0)
-  | 7 => Some (if a <? b then dres st a 1 else dres st b 0)
+  | 7 => Some (if s0 <? s1 then dres st s0 1 else dres st s1 0)
   | 8 => Some (if s32 a >? s32 b then dres st s0 1 else dres st s1 0)
-  | 9 => Some (if a >? b then dres st a 1 else dres st b 0)
+  | 9 => Some (if s0 >? s1 then dres st s0 1 else dres st s1 0)
   | 10 | 11 => Some (dres st (if c =? 1 then a else b) c)
-  | 12 | 13 => let d := Z.land a b in Some (dres st d (nz d))
+  | 12 => let d := Z.land s0 s1 in Some (dres st d (nz d))
+  | 13 => let d := Z.land a b in Some (dres st d (nz d))
   | 14 => let d := Z.lor s0 s1 in Some (dres st d (nz d))
   | 15 => let d := Z.lor a b in Some (dres st d (nz d))
   | 16 => let d := Z.lxor s0 s1 in Some (dres st d (nz d))
@@ -214,22 +228,17 @@ Definition c_sop2 (op a b : Z) (st : state) : option sres :=
   | 33 => let d := u64 (Z.shiftr (s64 a) (Z.land b 63)) in Some (dres st d (nz d))
   | 34 => Some (dres st (u32 (u64 (Z.shiftl (Z.shiftl 1 (Z.land a 31) - 1) (Z.land b 31)))) c)
   | 36 => Some (dres st (u32 (s32 (s32 a * s32 b))) c)
-  | 37 => let off := Z.land b 31 in let w := Z.land (Z.shiftr b 16) 127 in
-      let d := if w =? 0 then 0 else Z.land (Z.shiftr a off) (mask64 w) in
+  | 37 => let off := Z.land s1 31 in let w := Z.land (Z.shiftr s1 16) 127 in
+      let d := if w =? 0 then 0 else Z.land (Z.shiftr s0 off) (mask64 w) in
       Some (dres st d (nz d))
-  | 38 => let off := Z.land b 31 in let w := Z.land (Z.shiftr b 16) 127 in
-      let d := if w =? 0 then 0 else
-        let e := Z.land (Z.shiftr a off) (mask64 w) in
-        if Z.land (Z.shiftr e (w - 1)) 1 =? 1 then Z.lor e (not64 (mask64 w)) else e in
-      Some (dres st d (nz d))
-  | 44 => Some (dres st (Z.shiftr (u64 (a * b)) 32) c)
+  | 38 => let d := bfe_i32_impl a b in Some (dres st (u32 d) (nz d))
+  | 44 => Some (dres st (Z.shiftr (u64 (s0 * s1)) 32) c)
   | _ => None
   end.
 
 Definition c_sop1 (op a : Z) (st : state) : option sres :=
   let c := scc st in
   match op with
-  | 28 => Some (dres st (pc st) c)
   | 48 => let x := s32 a in
       Some (if x <? 0 then dres st (u32 (s32 (- x))) 1 else dres st (u32 x) 0)
   | _ => g_sop1 op a st     (* the remaining handlers are line-by-line the same computation *)
@@ -247,8 +256,8 @@ Definition c_sopc (op a b : Z) (st : state) : option sres :=
 Definition c_sopk (op k : Z) (d : option Z) (st : state) : option sres :=
   let c := scc st in
   match op with
-  | 0 => Some (dres st (u16 (s16 k)) c)
-  | 1 => Some (if c =? 1 then dres st (u16 (s16 k)) c else keep st)
+  | 0 => Some (dres st (u32 (s16 k)) c)
+  | 1 => Some (if c =? 1 then dres st (u32 (s16 k)) c else keep st)
   | 2 => match d with Some d => Some (cres st (b2z (s32 d =? s16 k))) | None => None end
   | 3 => match d with Some d => Some (cres st (b2z (negb (s32 d =? s16 k)))) | None => None end
   | 15 => match d with Some d => Some (dres st (u32 (s32 (s32 d * s16 k))) c) | None => None end
